@@ -319,6 +319,25 @@ def count(ctx: Ctx) -> None:
         ctx.ob(d, c, both, "output_blocks= and num_tasks= must be given together", sel="count:explicit-pair")
         if both:
             fl = flow_of(repo, d)
+            # the task iterable lives in the plan and is walked once per execution (and by
+            # fusion, resume, batching …): it must be re-iterable, not a one-shot iterator
+            cfg_ = cfg_of(d)
+            one_shot = None
+            if cfg_.has(c):
+                vals = [ob_]
+                if isinstance(ob_, ast.Name):
+                    vals = [s_.value for s_ in fl.rdefs(ob_.id, cfg_.node_of(c)) if s_.value is not None]
+                for v_ in vals:
+                    if isinstance(v_, ast.GeneratorExp) or (isinstance(v_, ast.Call) and isinstance(v_.func, ast.Name) and v_.func.id in ("map", "filter", "zip", "iter", "enumerate", "reversed")) or (isinstance(v_, ast.Call) and (attr_chain(v_.func) or "").startswith("itertools.")):
+                        one_shot = v_
+            ctx.ob(
+                d,
+                c,
+                one_shot is None,
+                "an explicit task iterable (output_blocks=) can be walked more than once"
+                + ("" if one_shot is None else f" — `{unparse(one_shot, 50)}` is a one-shot iterator: the second execution of the same plan (or any earlier walk) finds it empty while num_tasks still advertises the full count"),
+                sel="count:reiterable",
+            )
             t_ob = fl.taint(ob_) - {"self"}
             t_nt = fl.taint(nt_) - {"self"}
             same = bool(t_ob & t_nt)
